@@ -32,6 +32,10 @@ Lemma takeN_0 {A} (l : list A) : takeN 0 l = [].
 Proof. destruct l; reflexivity. Qed.
 Lemma dropN_0 {A} (l : list A) : dropN 0 l = l.
 Proof. destruct l; reflexivity. Qed.
+Lemma takeN_cons {A} n (x : A) l : n <> 0 -> takeN n (x :: l) = x :: takeN (n - 1) l.
+Proof. intro H. cbn [takeN]. destruct (N.eqb_spec n 0); [contradiction|]. now rewrite N.sub_1_r. Qed.
+Lemma dropN_cons {A} n (x : A) l : n <> 0 -> dropN n (x :: l) = dropN (n - 1) l.
+Proof. intro H. cbn [dropN]. destruct (N.eqb_spec n 0); [contradiction|]. now rewrite N.sub_1_r. Qed.
 Lemma takeN_all {A} n (l : list A) : lenN l <= n -> takeN n l = l.
 Proof. intro H. rewrite takeN_spec. apply firstn_all2. rewrite lenN_spec in H. lia. Qed.
 Lemma dropN_all {A} n (l : list A) : lenN l <= n -> dropN n l = [].
